@@ -30,7 +30,11 @@ FeedAll(chunks) == FoldLeft(FeedB, CInit, chunks)
 
 Split1(q, k) == << SubSeq(q, 1, k), SubSeq(q, k + 1, Len(q)) >>
 Singles(q) == [i \in 1..Len(q) |-> <<q[i]>>]
+\* (an empty feed() at a cut, and between any two units: state kept about "something pending" must not be derived from the last chunk alone)
+SplitE(q, k) == << SubSeq(q, 1, k), <<>>, SubSeq(q, k + 1, Len(q)) >>
+SinglesE(q) == [i \in 1..(2 * Len(q)) |-> IF i % 2 = 1 THEN <<q[(i + 1) \div 2]>> ELSE <<>>]
 Placements(q) == << <<q>> >> \o [k \in 1..(Len(q) - 1) |-> Split1(q, k)] \o << Singles(q) >> \o << <<q, <<>>>> >> \o << << <<>>, q >> >>
+                 \o [k \in 1..(Len(q) - 1) |-> SplitE(q, k)] \o << SinglesE(q) >>
 
 Init == toks \in UNION { [1..k -> Tokens] : k \in 1..MaxTok }
 Next == UNCHANGED toks
